@@ -8,6 +8,7 @@ package main
 import (
 	"flag"
 	"math/rand"
+	"sort"
 	"strconv"
 	"strings"
 	"sync"
@@ -202,8 +203,10 @@ func runEvictHistory(tr *Trace, run int, pol string, r *rand.Rand, length int, t
 			cmd = []Tok{S("MGET"), k, S(pick(r, keys))}
 		case x < 94:
 			cmd = []Tok{S("APPEND"), k, B("zz")}
-		case x < 97:
+		case x < 96:
 			cmd = []Tok{S("FLUSHDB")}
+		case x < 98:
+			cmd = []Tok{S("TOUCH"), k, S(pick(r, keys))}
 		default:
 			cmd = []Tok{S("RPUSH"), k, B("e")}
 		}
@@ -217,10 +220,11 @@ func runEvictHistory(tr *Trace, run int, pol string, r *rand.Rand, length int, t
 			}
 		}
 		time.Sleep(3 * time.Millisecond) // recency stamps have millisecond resolution
+		t0 := time.Now().UnixMilli() - evictT0
 		rep := srv.Exec(cmd)
 		quietOK := rec.waitQuiet(5 * time.Second)
 		ev := map[string]any{"ev": "cmd", "run": run, "now": srv.Now(), "db": strconv.Itoa(curDb), "cmd": toksJSON(cmd), "r": rep.JSON(),
-			"evicts": rec.take(), "quiet": quietOK, "policy": pol, "max": limit}
+			"evicts": rec.take(), "quiet": quietOK, "policy": pol, "max": limit, "t0": t0}
 		if rep.T == "panic" || rep.T == "hang" || !quietOK {
 			ev["st"] = []any{}
 			ev["mem"] = 0
@@ -239,6 +243,10 @@ func runEvictHistory(tr *Trace, run int, pol string, r *rand.Rand, length int, t
 		}
 		ev["st"] = projState(srv.Ep, st)
 		ev["mem"] = st.MemUsed
+		// the access counts the server reports (OBJECTFREQ), for every key of every database that is there
+		ev["freq"] = objectFreqs(srv, st, curDb, pol)
+		// ... and the time of the last access it reports (OBJECTIDLETIME), as an interval of wall-clock milliseconds
+		ev["idle"] = objectIdle(srv, st, curDb)
 		ev["vol"] = projVolatile(st)
 		ev["lru"] = cacheJSON(st.LRU)
 		ev["lfu"] = cacheJSON(st.LFU)
@@ -249,4 +257,112 @@ func runEvictHistory(tr *Trace, run int, pol string, r *rand.Rand, length int, t
 			*samples = append(*samples, ev)
 		}
 	}
+}
+
+// objectFreqs asks the server, through the OBJECTFREQ command, for the access count of every key of the
+// dataset (switching the embedded connection to each database and back).  Under a policy that is not LFU the
+// command must be refused, which is recorded as one entry with n = -1.
+func objectFreqs(srv *Srv, st sugardb.VerifState, curDb int, pol string) []any {
+	out := []any{}
+	dbs := make([]int, 0, len(st.DBs))
+	for db := range st.DBs {
+		dbs = append(dbs, db)
+	}
+	sort.Ints(dbs)
+	for _, db := range dbs {
+		keys := make([]string, 0, len(st.DBs[db]))
+		for k := range st.DBs[db] {
+			keys = append(keys, k)
+		}
+		sort.Strings(keys)
+		if len(keys) == 0 {
+			continue
+		}
+		if db != curDb {
+			if err := srv.DB.SelectDB(db); err != nil {
+				die(2, "select: %v", err)
+			}
+		}
+		for _, k := range keys {
+			rep := srv.Exec([]Tok{S("OBJECTFREQ"), S(k)})
+			n := int64(-1)
+			switch rep.T {
+			case "simple":
+				if v, err := strconv.ParseInt(string(rep.B), 10, 64); err == nil {
+					n = v
+				} else {
+					n = -2
+				}
+			case "int":
+				n = rep.N
+			case "err":
+				n = -1
+			default:
+				n = -3 // panic / hang / unexpected shape
+			}
+			out = append(out, map[string]any{"db": strconv.Itoa(db), "key": k, "n": n})
+		}
+		if db != curDb {
+			if err := srv.DB.SelectDB(curDb); err != nil {
+				die(2, "select: %v", err)
+			}
+		}
+	}
+	return out
+}
+
+// objectIdle asks the server, through OBJECTIDLETIME, when every key of the dataset was last accessed.  The reply
+// is the idle time in seconds measured against the wall clock at the moment of the call, so the access time is
+// known up to the duration of the call: [lo, hi] in milliseconds (relative like all stamps of this driver).
+// A refusal (no LRU policy, key not in the cache) is recorded as lo = hi = -1.
+func objectIdle(srv *Srv, st sugardb.VerifState, curDb int) []any {
+	out := []any{}
+	dbs := make([]int, 0, len(st.DBs))
+	for db := range st.DBs {
+		dbs = append(dbs, db)
+	}
+	sort.Ints(dbs)
+	for _, db := range dbs {
+		keys := make([]string, 0, len(st.DBs[db]))
+		for k := range st.DBs[db] {
+			keys = append(keys, k)
+		}
+		sort.Strings(keys)
+		if len(keys) == 0 {
+			continue
+		}
+		if db != curDb {
+			if err := srv.DB.SelectDB(db); err != nil {
+				die(2, "select: %v", err)
+			}
+		}
+		for _, k := range keys {
+			a := time.Now().UnixNano()
+			rep := srv.Exec([]Tok{S("OBJECTIDLETIME"), S(k)})
+			b := time.Now().UnixNano()
+			lo, hi := int64(-1), int64(-1)
+			switch rep.T {
+			case "simple":
+				if v, err := strconv.ParseFloat(string(rep.B), 64); err == nil {
+					idle := int64(v * 1e9)
+					// the stamp is a whole millisecond: the only ones in [a-idle, b-idle] (1 us of slack for the
+					// float in the reply)
+					lo = -floorDiv(-(a-idle-1000), 1_000_000) - evictT0
+					hi = floorDiv(b-idle+1000, 1_000_000) - evictT0
+				} else {
+					lo, hi = -2, -2
+				}
+			case "err":
+			default:
+				lo, hi = -3, -3 // panic / hang / unexpected shape
+			}
+			out = append(out, map[string]any{"db": strconv.Itoa(db), "key": k, "lo": lo, "hi": hi})
+		}
+		if db != curDb {
+			if err := srv.DB.SelectDB(curDb); err != nil {
+				die(2, "select: %v", err)
+			}
+		}
+	}
+	return out
 }
